@@ -48,6 +48,8 @@ def configs(tier):
         for n in (1, 2):
             out.append(("qgauss_data", nd, n))
     out.append(("qgauss_data", -4, 2))
+    out.append(("qgauss_data", 2, -2))      # tabulated values of integer type (counts)
+    out.append(("qgauss_data", -4, -1))
     out.append(("qgauss_data", -4, 1))
     out.append(("qgauss_cache",))
     out.append(("qgauss_nonpts",))
@@ -237,7 +239,9 @@ def h_qgauss(cx, cfg):
             xv = [off + b * sc for b in base]
         else:
             xv = [cx.real("x%d" % i) for i in range(nd)]
-        yv = [cx.real("y%d" % i) for i in range(nd)]
+        int_table = cfg[2] < 0
+        n = abs(n)
+        yv = [cx.int("y%d" % i, -50, 50) if int_table else cx.real("y%d" % i) for i in range(nd)]
         for i in range(nd - 1):
             cx.assume(xv[i] < xv[i + 1])
         q = u.QGauss(n)
@@ -246,10 +250,11 @@ def h_qgauss(cx, cfg):
         for x in xs.tolist():
             cx.assume(sym_and(x > -1, x < 1))
         via_q = cx.flag("via_qgauss_function")
+        ya = symnp.array(yv, dtype="i8") if int_table else symnp.array(yv)
         if via_q:
-            r = u.qgauss(symnp.array(xv), symnp.array(yv), n)
+            r = u.qgauss(symnp.array(xv), ya, n)
         else:
-            r = q.integrate(symnp.array(xv), symnp.array(yv))
+            r = q.integrate(symnp.array(xv), ya)
         f1, f2 = (xv[-1] - xv[0]) / 2, (xv[-1] + xv[0]) / 2
 
         def interp(t):
@@ -436,6 +441,11 @@ def replay(cand):
         else:
             xv = np.array([mf("x%d" % i, float(i)) for i in range(nd)])
         yv = np.array([mf("y%d" % i, float(i * i)) for i in range(nd)])
+        if n < 0:
+            n = -n
+            yv = np.array([int(round(v)) for v in yv], dtype="i8")
+            if len(set(yv.tolist())) < 2:
+                yv = np.arange(nd, dtype="i8") * 3 + 1
         if not (np.diff(xv) > 0).all():
             xv = np.arange(nd, dtype=float)
         want = direct(n, xv[0], xv[-1], lambda t: np.interp(t, xv, yv))
